@@ -29,6 +29,7 @@ func init() {
 			ruleStepSamplesAccumulate(r, []string{"vectorAggIterator", "vectorAggHeapIterator", "rangeAggIterator"})
 			ruleBinOpPairsMatched(r)
 			ruleStepBuffers(r) // per-step conservation: a reported step holds only what this step computed
+			ruleKeySiblings(r)
 		},
 	})
 }
